@@ -62,3 +62,57 @@ Lemma staircase_source_vm_nonvacuous :
   exists prog cs g0 g', build_program wit_good = Ok prog /\ prog <> [] /\ translate prog = Ok cs /\
     gen_set_commands (gvm_init 2) (map embed cs) = Ok g0 /\ gen_run_n 1000 g0 = Some (Ok g') /\ length (gvm_history g') = 21%nat.
 Proof. exact (source_vm_demo_sound wit_good 2 1000 21 source_vm_demo_eq). Qed.
+
+(* Round 4: the same with the translator taken from the source as well (Gen_linspace_tr.v): to_increment_commands on the node
+   tree the modelled builder produces, LinSpaceVM.__init__, set_commands, run. *)
+Require Import QV.C17.Gen_linspace_tr QV.C17.GenTrEq.
+
+Theorem staircase_source_translator_vm : forall channels s prog gcs fuel g0 g',
+  src_wf channels s = true -> guard_C17_key_collision s = true ->
+  build_program s = Ok prog -> prog <> [] ->
+  gen_to_increment_commands (map embed_node prog) = Ok gcs ->
+  gen_set_commands (gen_vm_init channels) gcs = Ok g0 ->
+  gen_run_n fuel g0 = Some (Ok g') ->
+  plays (gvm_history g') (fst (staircase s)) = true /\ Qeq_bool (gvm_time g') (snd (staircase s)) = true.
+Proof.
+  intros channels s prog gcs fuel g0 g' Hwf Hg Hb Hne Ht Hset Hrun.
+  rewrite gen_to_increment_commands_eq in Ht. destruct (translate prog) as [cs|e] eqn:E; [|discriminate].
+  injection Ht as <-. rewrite gen_vm_init_eq in Hset.
+  exact (staircase_source_vm channels s prog cs fuel g0 g' Hwf Hg Hb Hne E Hset Hrun).
+Qed.
+
+Definition source_tr_vm_demo (s : src) (channels fuel : nat) : option nat :=
+  match build_program s with
+  | Ok prog =>
+      match prog with [] => None | _ =>
+      match gen_to_increment_commands (map embed_node prog) with
+      | Ok gcs => match gen_set_commands (gen_vm_init channels) gcs with
+                  | Ok g0 => match gen_run_n fuel g0 with Some (Ok g') => Some (length (gvm_history g')) | _ => None end
+                  | Err _ => None
+                  end
+      | Err _ => None
+      end end
+  | Err _ => None
+  end.
+
+Lemma source_tr_vm_demo_sound : forall s channels fuel n, source_tr_vm_demo s channels fuel = Some n ->
+  exists prog gcs g0 g', build_program s = Ok prog /\ prog <> [] /\ gen_to_increment_commands (map embed_node prog) = Ok gcs /\
+    gen_set_commands (gen_vm_init channels) gcs = Ok g0 /\ gen_run_n fuel g0 = Some (Ok g') /\ length (gvm_history g') = n.
+Proof.
+  intros s channels fuel n H. unfold source_tr_vm_demo in H.
+  destruct (build_program s) as [prog|] eqn:E1; [|discriminate H].
+  destruct prog as [|n0 prog]; [discriminate H|].
+  destruct (gen_to_increment_commands (map embed_node (n0 :: prog))) as [gcs|] eqn:E2; [|discriminate H].
+  destruct (gen_set_commands (gen_vm_init channels) gcs) as [g0|] eqn:E3; [|discriminate H].
+  destruct (gen_run_n fuel g0) as [[g'|]|] eqn:E4; try discriminate H.
+  exists (n0 :: prog), gcs, g0, g'. split; [reflexivity|]. split; [discriminate|]. split; [exact E2|]. split; [exact E3|].
+  split; [exact E4|]. injection H as H. exact H.
+Qed.
+
+Lemma source_tr_vm_demo_eq : source_tr_vm_demo wit_good 2 1000 = Some 21%nat.
+Proof. vm_compute. reflexivity. Qed.
+
+Lemma staircase_source_translator_vm_nonvacuous :
+  exists prog gcs g0 g', build_program wit_good = Ok prog /\ prog <> [] /\ gen_to_increment_commands (map embed_node prog) = Ok gcs /\
+    gen_set_commands (gen_vm_init 2) gcs = Ok g0 /\ gen_run_n 1000 g0 = Some (Ok g') /\ length (gvm_history g') = 21%nat.
+Proof. exact (source_tr_vm_demo_sound wit_good 2 1000 21 source_tr_vm_demo_eq). Qed.
